@@ -669,17 +669,21 @@ class XsdElement(XsdComponent, ParticleMixin,
                 if xsd_type.is_blocked(self):
                     reason = _("usage of %r is blocked") % xsd_type
                     context.validation_error(validation, self, reason, obj)
-                elif xsd_type not in self.xsi_types:
+                else:
                     self.xsi_types.add(xsd_type)
 
                     # For complex contents augments permanently the XSD elements
-                    # that collect keys/keyrefs for enabled identities.
+                    # that collect keys/keyrefs for enabled identities. The usage
+                    # is recorded for each identity, because an identity that is
+                    # not enabled now still has to be augmented at its first use.
                     if xsd_type.has_complex_content():
-                        xpath_element = XPathElement(self.name, xsd_type)
+                        xsi_usage = self.name, xsd_type
                         for counter in context.identities.values():
-                            if counter.enabled:
+                            identity = counter.identity
+                            if counter.enabled and xsi_usage not in identity.xsi_usages:
+                                identity.xsi_usages.add(xsi_usage)
                                 try:
-                                    counter.identity.update_elements(xpath_element)
+                                    identity.update_elements(XPathElement(*xsi_usage))
                                 except TypeError as e:
                                     context.validation_error(validation, self, e, obj)
 
